@@ -461,11 +461,18 @@ Section RecvMonitor.
         let v := mk_rverdict c02 c07 c08 true true c04 in
         if is_last then
           (* C13: what is left on disk *)
+          (* the final block was accepted and its acknowledgement went out (first copy sent): the peer holds a completed
+             upload, whatever the worker makes of a later copy - the file is the upload from then on *)
+          let final_acked := q_done m2 && existsb (fun x => match x with
+                                                            | (raw, failed, _) => negb failed && match as_ack raw with
+                                                                                                  | Some n => n =? (q_cnt m2) mod 65536
+                                                                                                  | None => false end end) b in
           let c13 :=
             match ending with
             | EndOk => match final with Some f => fp_eqb f (q_len m2, q_hash m2) && q_done m2 | None => false end
             | EndRunaway => true
-            | _ => if clean then match final with None => true | Some _ => false end
+            | _ => if final_acked then match final with Some f => fp_eqb f (q_len m2, q_hash m2) | None => false end
+                   else if clean then match final with None => true | Some _ => false end
                    else match final with
                         | Some f => existsb (fp_eqb f) ((0, fnv_init) :: q_prefixes m2)
                         | None => false
@@ -485,7 +492,9 @@ Section RecvMonitor.
     | [] => utrue
     | b0 :: bs =>
       match ending with
-      | EndRunaway => mk_rverdict true false true true true true
+      | EndRunaway =>
+        (* the worker never gives its silent peer up: C07; and with clean-on-error it never removes the partial file: C13 *)
+        mk_rverdict true false true true (negb clean) true
       | _ =>
         let v0 := mk_rverdict (match b0 with [] => true | _ => false end) true true true true true in
         match bs with
